@@ -931,8 +931,8 @@ func (p *Path) resolveCall(fr *Frame, cc *ssa.CallCommon) (*FuncV, []Value) {
 }
 
 func (p *Path) lookupMethod(iv IfaceV, m *types.Func) *FuncV {
-	if nv, ok := iv.v.(*NativeV); ok && p.isNativeType(iv.t) {
-		return &FuncV{native: "nativemethod:" + nv.kind + "." + m.Name()}
+	if _, ok := iv.v.(*NativeV); ok && p.isNativeType(iv.t) {
+		return &FuncV{native: "noop", sig: m.Type().(*types.Signature)}
 	}
 	key := methodKey{iv.t, m}
 	if f, ok := methodCache.Load(key); ok {
